@@ -35,6 +35,8 @@ def sort_of(x):
 
 
 def lift(x):
+    if isinstance(x, str):
+        return z3.StringVal(x)
     if isinstance(x, bool):
         return z3.BoolVal(x)
     if isinstance(x, int):
